@@ -1011,7 +1011,7 @@ func genC14(rng *rand.Rand, tier string) (cases []string) {
 		add("C14.std.parsedur %s", hx([]byte(t)))
 	}
 	for i := 0; i < 600*scale; i++ {
-		t := randParseDurTextC14(rng)
+		t := dictMutate(rng, randParseDurTextC14(rng), "hms.-", 16)
 		add("C14.std.parsedur %s", hx([]byte(t)))
 		if i%6 == 0 { // the "drop" clauses of DUR-RT: the same text with a zero unit appended
 			add("C14.std.parsedur %s", hx([]byte(t+pick(rng, "0s", "0m", "0m0s", "0h", "0", "0.0s", ".0s"))))
@@ -1024,13 +1024,13 @@ func genC14(rng *rand.Rand, tier string) (cases []string) {
 		}
 	}
 	for i := 0; i < 500*scale; i++ {
-		add("C14.hp %s %d", hx([]byte(randHostC14(rng))), randPortC14(rng))
+		add("C14.hp %s %d", hx([]byte(dictMutate(rng, randHostC14(rng), ":%[].", 12))), randPortC14(rng))
 	}
 	for i := 0; i < 300*scale; i++ {
-		s := randHostPortTextC14(rng)
+		s := dictMutate(rng, randHostPortTextC14(rng), ":%[].", 12)
 		add("C14.php %s", hx([]byte(s)))
 		if i%2 == 0 {
-			add("C14.std.split %s", hx([]byte(randHostPortTextC14(rng))))
+			add("C14.std.split %s", hx([]byte(dictMutate(rng, randHostPortTextC14(rng), ":%[].", 12))))
 		}
 	}
 	for i := 0; i < 100*scale; i++ {
@@ -1057,20 +1057,20 @@ func genC14(rng *rand.Rand, tier string) (cases []string) {
 	}
 	// prefixes
 	for i := 0; i < 500*scale; i++ {
-		cases = append(cases, mkPrefixCaseC14(randPrefixTextC14(rng)))
+		cases = append(cases, mkPrefixCaseC14(dictMutate(rng, randPrefixTextC14(rng), ":%/.", 12)))
 	}
 	// URLs
 	for _, raw := range urlFixedC14 {
 		cases = append(cases, mkURLCaseC14(raw))
 	}
 	for i := 0; i < 1200*scale; i++ {
-		cases = append(cases, mkURLCaseC14(randURLC14(rng)))
+		cases = append(cases, mkURLCaseC14(dictMutate(rng, randURLC14(rng), ":/?#@%&=", 12)))
 	}
 	for _, tok := range ujsonFixedC14 {
 		cases = append(cases, mkUJSONCaseC14(tok))
 	}
 	for i := 0; i < 200*scale; i++ {
-		cases = append(cases, mkUJSONCaseC14(randUJSONC14(rng)))
+		cases = append(cases, mkUJSONCaseC14(dictMutate(rng, randUJSONC14(rng), "\"\\:/", 10)))
 	}
 	return cases
 }
